@@ -156,8 +156,12 @@ SAMPLES = [
     np.array([[1000.0, 0.0, -1000.0], [-3000.0, -1000.0, -1000.5]]),
     np.array([[-7.0, -7.0, -9.0], [40.0, 12.0, 40.0]]),
     np.array([[1.0e5, 1.0e5 - 1.0e-3, 0.0], [-1.0e5, -2.0e5, -1.0e5]]),
+    np.array([[-1000.0, -1001.5, -1003.0], [-2000.0, -2000.0, -2500.0]]),     # all negative, large magnitude
+    np.array([[1000.0, 1001.5, 1003.0], [2000.0, 2000.0, 2500.0]]),           # all positive, large magnitude
+    np.array([[-0.75, -0.5, -0.5], [-2.0, -1.0, -3.0]]),
+    np.array([[0.75, 0.5, 0.5], [2.0, 1.0, 3.0]]),
 ]
-RHOS = [0.5, 3.0, 50.0, 2000.0]
+RHOS = [0.5, 3.0, 50.0, 2000.0, 1.0e6]
 
 
 def bracket_witness(p, sign, mode):
@@ -360,9 +364,10 @@ def parity(repo, out):
     reported = set()
 
     def bad(fn, node, why, key):
-        if (fn.qualname, key) not in reported:
-            reported.add((fn.qualname, key))
-            out.bad(fn, node, why, key=key)
+        # one instance per (method, valuation, clause): a violation under some valuations must not make the
+        # rule fall below its floor; the key is shared so that the finding stays one construct
+        reported.add((fn.qualname, key))
+        out.bad(fn, node, why, key=key)
 
     for v in vals:
         L, M = v.get('lower_flag', False), v.get('minimum', False)
@@ -650,6 +655,14 @@ selftest(
     Mutant('lse-precedence', KS, 'KS = g_max + 1.0 / rho * np.log(summation)', 'KS = g_max + 1.0 / (rho * np.log(summation))', 'C25.lse'),
     Mutant('lse-sum-of-shifted', KS, 'summation = np.sum(exponents, axis=-1)[:, np.newaxis]', 'summation = np.sum(g_diff, axis=-1)[:, np.newaxis]', 'C25.lse'),
     Mutant('lse-newaxis-in-front', KS, 'g_max = np.max(np.atleast_2d(g), axis=-1)[:, np.newaxis]', 'g_max = np.max(np.atleast_2d(g), axis=-1)[np.newaxis, :]', 'C25.lse'),
+    Mutant('jax-max-shift-clamped-at-zero', JAX, 'x_max = jnp.max(x)', 'x_max = jnp.maximum(jnp.max(x), 0.0)', 'C25.lse'),
+    Mutant('jax-min-shift-clamped-at-zero', JAX, 'x_min = jnp.min(x)', 'x_min = jnp.minimum(jnp.min(x), 0.0)', 'C25.lse'),
+    Mutant('jax-max-shift-clipped', JAX, 'x_max = jnp.max(x)', 'x_max = jnp.clip(jnp.max(x), -100.0, 100.0)', 'C25.lse'),
+    Mutant('jax-max-shift-where', JAX, 'x_max = jnp.max(x)', 'x_max = jnp.where(jnp.max(x) > 0.0, jnp.max(x), 0.0)', 'C25.lse'),
+    Mutant('jax-max-shift-offset', JAX, 'x_max = jnp.max(x)', 'x_max = jnp.max(x) + 1.0', 'C25.lse'),
+    Mutant('jax-min-shift-offset', JAX, 'x_min = jnp.min(x)', 'x_min = jnp.min(x) - 1.0', 'C25.lse'),
+    Mutant('lse-shift-clamped-at-zero', KS, 'g_max = np.max(np.atleast_2d(g), axis=-1)[:, np.newaxis]',
+           'g_max = np.maximum(np.max(np.atleast_2d(g), axis=-1)[:, np.newaxis], 0.0)', 'C25.lse'),
     # ---- grad
     Mutant('grad-global-sum', KS, 'dKS_dsum = 1.0 / (rho * summation)', 'dKS_dsum = 1.0 / (rho * np.sum(exponents))', 'C25.grad'),
     Mutant('grad-plain-exponents-ratio', KS, 'dKS_dg = dKS_dsum * dsum_dg', 'dKS_dg = exponents / (1.0 + summation)', 'C25.grad'),
@@ -719,6 +732,9 @@ selftest(
     Twin('variant-sharper-rho-consistent', KS, "ks_val = KSfunction.compute(con_val, opt['rho'])", "ks_val = KSfunction.compute(con_val, 2 * opt['rho'])",
          also=[(KS, "KSfunction.derivatives(con_val, opt['rho'])[0]", "KSfunction.derivatives(con_val, 2 * opt['rho'])[0]")]),
     Twin('twin-rho-local', KS, "        ks_val = KSfunction.compute(con_val, opt['rho'])", "        rho = opt['rho']\n        ks_val = KSfunction.compute(con_val, rho=rho)"),
+    Twin('twin-jax-max-keepdims-false', JAX, 'x_max = jnp.max(x)', 'x_max = jnp.max(x, keepdims=False)'),
+    Twin('twin-jax-shift-in-temporary', JAX, 'x_max = jnp.max(x)\n', 'top = jnp.max(x)\n    x_max = top\n'),
+    Twin('twin-jax-shift-idempotent-maximum', JAX, 'x_max = jnp.max(x)', 'x_max = jnp.maximum(jnp.max(x), jnp.max(x))'),
     Twin('twin-jax-log-over-rho', JAX, 'return x_max + 1.0 / rho * jnp.log(summation)', 'return jnp.log(summation) / rho + x_max'),
     Twin('twin-jax-min-negated-diff', JAX, 'x_diff = x_min - x', 'x_diff = -(x - x_min)'),
     Twin('twin-jax-min-mirror', JAX, 'x_diff = x_min - x\n    exponents = jnp.exp(rho * x_diff)',
